@@ -139,6 +139,8 @@ def run(prog, rep, tier):
 
     r5 = rep.rule("R08.5", "every message the validator hands out is fed to the FSM (an UPDATE restarts the hold timer whatever happens to its routes)")
     check_every_message_fed(prog, r5)
+    r6 = rep.rule("R08.6", "hold-timer expiry tears the session down in every state in which the hold timer runs (OpenSent, OpenConfirm, Established)")
+    check_expiry_states(prog, r6)
     r4 = rep.rule("R08.4", "driver feeds timer-expiry inputs only from the matching timer future")
     check_driver_inputs(prog, r4)
     check_timer_replacement(prog, r4)
@@ -350,3 +352,46 @@ def check_every_message_fed(prog, r):
                "skipped this way does not restart the hold timer (and is not an FSM error outside Established)", fv.loc(nb))
     else:
         r.ok("run_select: every message produced by validate_message is handed to rx_msg")
+
+
+def check_expiry_states(prog, r):
+    """The hold timer is armed when the OPEN is sent (large value), re-armed with the negotiated value on the peer's OPEN (OpenConfirm)
+    and on every KEEPALIVE / UPDATE (Established).  Its expiry must end the session in all three states; an expiry that is ignored in
+    one of them leaves the session there for ever, because the driver does not re-arm an elapsed timer on its own."""
+    ks = prog.find(r"rustybgpd::fsm::Connection::on_hold_timer_expired")
+    host = None
+    if len(ks) == 1:
+        fv = view(prog, ks[0])
+    else:
+        # the handler may have been inlined into the dispatcher: read the dispatcher's arm for the expiry input
+        dk = prog.find(r"rustybgpd::fsm::Connection::process")
+        if len(dk) != 1:
+            r.unanalysable("Connection::on_hold_timer_expired anchor matched %d" % len(ks))
+            return
+        fv = view(prog, dk[0])
+        host = "HoldTimerExpired"
+    r.analysed(fv.name)
+    brs = branches(fv)
+    downs = []
+    for bi, si, st in fv.aggregates(re.compile(r"rustybgpd::fsm::Output$"), "SessionDown"):
+        e0 = Renderer(fv, depth=8, through_names=True).operand(st["rv"]["fields"][0], 8)
+        if any(isinstance(x, tuple) and x and x[0] == "agg" and x[2] == "HoldTimerExpired" for x in walk(e0)):
+            downs.append(bi)
+    if not downs:
+        r.fail(fv.name, "expiry-no-sessiondown", "hold-timer expiry never produces SessionDown(HoldTimerExpired)", fv.loc())
+        return
+    states = set()
+    for bi in downs:
+        got = None
+        for g, l, h in flat_guards(fv, bi, brs):
+            if g[0] == "discr" and g[2] and g[2].endswith("fsm::State") and "else" not in l:
+                got = set(l) if got is None else (got & set(l))
+        if got is None:
+            got = {"OpenSent", "OpenConfirm", "Established"}       # unconditional
+        states |= got
+    need = {"OpenSent", "OpenConfirm", "Established"}
+    if need <= states:
+        r.ok("hold-timer expiry => SessionDown(HoldTimerExpired) in %s" % sorted(states & need))
+    else:
+        r.fail(fv.name, "expiry-ignored-in:" + "+".join(sorted(need - states)), "a hold-timer expiry in state %s produces no SessionDown: the peer went silent after its OPEN / mid-session, the timer has "
+               "elapsed, and the session stays where it is indefinitely" % "/".join(sorted(need - states)), fv.loc(downs[0]))
